@@ -29,8 +29,8 @@ META = dict(
                       'and .extrap_x attribute) and Spectrum-valued models in linear mode, array-valued in log mode; '
                       'fail_mag=10 default; all permutations of the pts list for k<=3',
                 thorough='as quick, entries 2 for all k, all permutations of pts for k<=4'),
-    outside=['float round-off of the Lagrange formulas', 'scalar-valued models', 'Spectrum-valued models in log mode '
-             '(numpy.ma domain masking of log of an uninterpreted EXP term)', 'k>6 other than rejection'],
+    outside=['float round-off of the Lagrange formulas', 'scalar-valued models', 'VALUES of Spectrum-valued models in log mode '
+             '(numpy.ma domain masking of log of an uninterpreted EXP term; their labels, type, folding flag and mask are checked)', 'k>6 other than rejection'],
     stubs=['EXP/LOG uninterpreted with the axiom instance LOG(EXP(t))=t; equalities between EXP(..) terms are established by proving the arguments equal (congruence)', 'numpy.log10 inside Numerics -> fresh reals (contract: some real number; its argument is proved equal to extrapolant/best separately)', 'numpy array constructors -> object arrays'],
     assumptions=['doubles modelled as reals', 'x_k pairwise distinct and > 0', 'recorded denominators != 0'],
 )
@@ -76,12 +76,29 @@ def _fresh_log10(x):
     return out
 
 
+def _lifted(ufunc):
+    """numpy.exp / numpy.log inside Numerics: the real ufunc (so that Spectrum.__array_wrap__ and numpy.ma's domain
+    logic run), after lifting plain Python numbers stored in an object array (numpy.ma's fill values at masked entries)
+    to exact constants - object-dtype ufunc loops need a method on every element."""
+    def f(x):
+        if isinstance(x, np.ndarray) and x.dtype == object:
+            d = np.ma.getdata(x)
+            if any(not isinstance(v, S.Sym) for v in d.flat):
+                x = x.copy()
+                d = np.ma.getdata(x)
+                for idx in np.ndindex(*d.shape):
+                    if not isinstance(d[idx], S.Sym):
+                        d[idx] = S.Sym.lift(d[idx])
+        return ufunc(x)
+    return f
+
+
 def _setup():
     import logging
     import dadi
     from dadi import Numerics, Spectrum_mod
     logging.getLogger('Numerics').setLevel(logging.ERROR)
-    shims.install_numpy(Numerics, overrides={'log10': _fresh_log10})
+    shims.install_numpy(Numerics, overrides={'log10': _fresh_log10, 'exp': _lifted(np.exp), 'log': _lifted(np.log)})
     shims.install_numpy(Spectrum_mod)
     shims.patch_spectrum_dtype(dadi.Spectrum)
 
@@ -221,8 +238,51 @@ def misc_body(env):
     env.same('scalar pts', np.asarray(r), c)
 
 
+def make_labels_log_body(k, shape, folded):
+    """Log variant with a Spectrum-valued model: attributes only (labels, type, folding flag, mask).  Entries are fresh
+    positive reals, so numpy.ma's domain masking of log never triggers and no value claim is made."""
+    def body(env):
+        import dadi
+        from dadi import Numerics
+        xs = [env.real('x%d' % i, lo=0, lo_open=True) for i in range(k)]
+        for i in range(k - 1):
+            env.assume(xs[i] < xs[i + 1])
+        labels = ['pop%c' % (65 + d) for d in range(len(shape))]
+        ys = [env.array('y%d' % i, shape, lo=0) for i in range(k)]
+        for y in ys:
+            for v in y.flat:
+                env.assume(v > 0)
+        del LOGS[:]
+        ASSUME_POS[0] = True
+
+        def model(dummy, pts):
+            i = pts // 10 - 1
+            fs = dadi.Spectrum(ys[i].copy(), mask_corners=True, pop_ids=list(labels))
+            if folded:
+                fs = fs.fold()
+            fs.extrap_x = xs[i]
+            return fs
+        f = Numerics.make_extrap_log_func(model)
+        with np.errstate(all='ignore'):
+            res = f(7, [10 * (i + 1) for i in range(k)])
+        env.holds('type', isinstance(res, dadi.Spectrum))
+        env.holds('labels %r' % (getattr(res, 'pop_ids', None),), getattr(res, 'pop_ids', None) is not None
+                  and list(res.pop_ids) == labels)
+        env.holds('folding flag', bool(getattr(res, 'folded', None)) == bool(folded))
+        ref = dadi.Spectrum(ys[0].copy(), mask_corners=True)
+        if folded:
+            ref = ref.fold()
+        env.holds('mask', np.array_equal(np.ma.getmaskarray(res), np.ma.getmaskarray(ref)))
+    return body
+
+
 def units(tier, seed):
     us = []
+    for k in ((1, 2, 3) if tier == 'quick' else (1, 2, 3, 4)):
+        for shape, folded in (((3,), False), ((2, 3), False), ((3,), True)):
+            us.append(H.Unit('labels-log-spectrum-k%d-%s%s' % (k, 'x'.join(map(str, shape)), '-folded' if folded else ''),
+                             make_labels_log_body(k, shape, folded), params=dict(k=k, shape=list(shape), folded=folded),
+                             setup=_setup, min_obligations=4, timeout_s=400, maxpaths=4000, query_timeout_ms=60000))
     for k in range(1, 7):
         n = 2 if (k <= 4 or tier == 'thorough') else 1
         maxperm = 3 if tier == 'quick' else 4
